@@ -148,7 +148,7 @@ func TestC11(t *testing.T) {
 		})
 	}
 	// directories over real children (true Tsize by construction)
-	for i := 0; i < r.Pick(40, 400); i++ {
+	for i := 0; i < r.Pick(100, 2000); i++ {
 		i := i
 		r.Case(fmt.Sprintf("tree/%d", i), map[string]any{"tree": i}, func(c *mon.Case) {
 			root := genTree(c.Rand(), 3, true)
@@ -189,7 +189,7 @@ func TestC11(t *testing.T) {
 		})
 	}
 	// recursive filesystem imports (incl. a file larger than one default chunk)
-	for i := 0; i < r.Pick(3, 12); i++ {
+	for i := 0; i < r.Pick(6, 40); i++ {
 		i := i
 		r.Case(fmt.Sprintf("fs/%d", i), map[string]any{"fs_tree": i}, func(c *mon.Case) {
 			dir, err := os.MkdirTemp("", "verif-c11-")
